@@ -9,6 +9,7 @@ import (
 	"regexp"
 	"sort"
 	"strings"
+	"syscall"
 	"time"
 
 	"verif/harness/evid"
@@ -116,42 +117,12 @@ func raceChild(run *evid.Run, cfg Cfg, role string, extra ...string) {
 		return
 	}
 	dir := filepath.Join(cfg.Work, "race-"+role)
-	_ = os.RemoveAll(dir)
-	_ = os.MkdirAll(dir, 0o755)
-	args := append([]string{role, "-tier", cfg.Tier, "-seed", fmt.Sprint(cfg.Seed), "-work", dir}, extra...)
-	cmd := exec.Command(bin, args...)
-	cmd.Env = append(os.Environ(), "GORACE=halt_on_error=0 log_path="+filepath.Join(dir, "race"))
-	out, _ := os.Create(filepath.Join(dir, "out.txt"))
-	cmd.Stdout, cmd.Stderr = out, out
-	done := make(chan error, 1)
-	if err := cmd.Start(); err != nil {
-		run.Inconclusive("cannot start race child: " + err.Error())
-		return
-	}
-	go func() { done <- cmd.Wait() }()
-	var werr error
-	select {
-	case werr = <-done:
-	case <-time.After(20 * time.Minute):
-		_ = cmd.Process.Kill()
+	res := runChild(cfg, bin, role, dir, 20*time.Minute, []string{"GORACE=halt_on_error=0 log_path=" + filepath.Join(dir, "race")}, extra...)
+	if res.TimedOut {
 		run.Inconclusive("race child " + role + " exceeded its watchdog")
 		return
 	}
-	out.Close()
-	outText, _ := os.ReadFile(filepath.Join(dir, "out.txt"))
-	// The child reports what it did on lines "RACE-CHILD key=value".
-	for _, l := range strings.Split(string(outText), "\n") {
-		if strings.HasPrefix(l, "RACE-CHILD ") {
-			var k string
-			var v int
-			if _, err := fmt.Sscanf(l, "RACE-CHILD %s %d", &k, &v); err == nil {
-				run.Count("race_child_"+k, v)
-			}
-		}
-		if strings.HasPrefix(l, "CHILD-VIOLATION ") {
-			run.Violate("under -race: "+strings.TrimPrefix(l, "CHILD-VIOLATION "), string(outText))
-		}
-	}
+	res.Violations = absorbChild(run, res, "race_child_", "under -race: ")
 	reports := parseRaceLogs(filepath.Join(dir, "race.*"))
 	dirk := 0
 	for _, rep := range reports {
@@ -164,14 +135,85 @@ func raceChild(run *evid.Run, cfg Cfg, role string, extra ...string) {
 	}
 	run.Count("race_reports_in_dirk", dirk)
 	run.Count("race_reports_total", len(reports))
-	if werr != nil && len(reports) == 0 {
-		tail := string(outText)
-		if len(tail) > 1500 {
-			tail = tail[len(tail)-1500:]
-		}
-		run.Inconclusive(fmt.Sprintf("race child %s failed: %v: %s", role, werr, tail))
+	if res.Err != nil && len(reports) == 0 && res.Violations == 0 {
+		run.Inconclusive(fmt.Sprintf("race child %s failed: %v: %s", role, res.Err, tail(res.Out, 1500)))
 	}
 	if run.Get("race_child_operations") == 0 {
 		run.Inconclusive("race child " + role + " reported no operations")
 	}
+}
+
+func tail(s string, n int) string {
+	if len(s) > n {
+		return s[len(s)-n:]
+	}
+	return s
+}
+
+// childResult is what a child process left behind.
+type childResult struct {
+	Out        string
+	Err        error
+	TimedOut   bool
+	Violations int
+	Dir        string
+}
+
+// runChild runs a vh role as a child process with its output in <dir>/out.txt.
+func runChild(cfg Cfg, bin, role, dir string, watchdog time.Duration, env []string, extra ...string) childResult {
+	_ = os.RemoveAll(dir)
+	_ = os.MkdirAll(dir, 0o755)
+	args := append([]string{role, "-tier", cfg.Tier, "-seed", fmt.Sprint(cfg.Seed), "-work", dir}, extra...)
+	cmd := exec.Command(bin, args...)
+	cmd.Env = append(os.Environ(), env...)
+	outPath := filepath.Join(dir, "out.txt")
+	out, _ := os.Create(outPath)
+	cmd.Stdout, cmd.Stderr = out, out
+	res := childResult{Dir: dir}
+	if err := cmd.Start(); err != nil {
+		res.Err = err
+		return res
+	}
+	done := make(chan error, 1)
+	go func() { done <- cmd.Wait() }()
+	select {
+	case res.Err = <-done:
+	case <-time.After(watchdog):
+		// SIGQUIT first so that the goroutine dump lands in out.txt.
+		_ = cmd.Process.Signal(syscall.SIGQUIT)
+		select {
+		case <-done:
+		case <-time.After(10 * time.Second):
+			_ = cmd.Process.Kill()
+			<-done
+		}
+		res.TimedOut = true
+	}
+	out.Close()
+	b, _ := os.ReadFile(outPath)
+	res.Out = string(b)
+	return res
+}
+
+// absorbChild folds a child's "RACE-CHILD k v" / "STAT k v" counters and CHILD-VIOLATION lines into the run.
+func absorbChild(run *evid.Run, res childResult, prefix, violPrefix string) (violations int) {
+	for _, l := range strings.Split(res.Out, "\n") {
+		if strings.HasPrefix(l, "RACE-CHILD ") || strings.HasPrefix(l, "STAT ") {
+			f := strings.Fields(l)
+			if len(f) == 3 {
+				var v int
+				if _, err := fmt.Sscan(f[2], &v); err == nil {
+					run.Count(prefix+f[1], v)
+				}
+			}
+		}
+		if strings.HasPrefix(l, "DISTINCT ") {
+			run.Distinct(strings.TrimPrefix(l, "DISTINCT "))
+		}
+		if strings.HasPrefix(l, "CHILD-VIOLATION ") {
+			violations++
+			run.Violate(violPrefix+strings.TrimPrefix(l, "CHILD-VIOLATION "), tail(res.Out, 6000))
+		}
+	}
+	return violations
 }
